@@ -284,7 +284,10 @@ CLAIMED = {
              "message server's nonce handling and baseapp's ante/exec split: an admitted tx has valid signatures and nonces equal to the "
              "consecutive sequence numbers of its senders; every sender's sequence ends exactly +count whether execution succeeds, "
              "reverts or fails; sequences never decrease; over every submission history no (signer, nonce) takes effect twice; replays are "
-             "rejected. T1: the EVM decorator chain is regenerated from the source. Correspondence through full DeliverTx on the real app.",
+             "rejected; every contract-creation message of an admitted tx is deployed at the address derived from its signer and its "
+             "nonce, which is the signer's sequence at the moment of admission. T1: the EVM decorator chain, the nonce comparison and the "
+             "order SetNonce / Create / Call in ApplyEvmMsg are regenerated from the source. Correspondence through full DeliverTx on the "
+             "real app (the run also reports where every creation put its code).",
         note="Trusted: Lean kernel; harness; extractor; signature recovery and the EVM interpreter as parameters (per-message flags / gas "
              "used taken from the real run).",
         technique="Lean 4 proof (history invariant: executed nonces below the sequence, no duplicates) + regenerated ante-chain fact + "
